@@ -59,6 +59,9 @@ deriving Repr, DecidableEq
 
 inductive Phase where
   | idle | begun | written | replaced | cleared
+  /-- a WriteSnapshot attempt failed after Cache.Snapshot (`ClearSnapshot(false)`): the snapshot
+      store keeps its content for the retry, nothing is in flight -/
+  | failed
 deriving Repr, DecidableEq
 
 structure State where
@@ -163,6 +166,9 @@ inductive Op where
   | write (es : Log)
   | delete (ss : List Nat) (lo hi : Int)
   | snapBegin
+  /-- a whole `WriteSnapshot` call while the compactor refuses snapshots
+      (`Compactor.WriteSnapshot` returns an error after `Cache.Snapshot`) -/
+  | snapFail
   | snapStep
   /-- let the in-flight snapshot run until it has reached phase `p` (`idle` = until it returns) -/
   | snapTo (p : Phase)
@@ -183,6 +189,10 @@ inductive Obs where
   | badGroup
   | rows (r : List Pt)
   | nfiles (n : Nat)
+  /-- WriteSnapshot returned the compactor's error -/
+  | failed
+  /-- not attempted: a stepped snapshot is in flight -/
+  | busy
   /-- any other answer of the implementation (an error) -/
   | err
 deriving Repr, DecidableEq
@@ -211,6 +221,24 @@ def stepSnapBegin (s : State) : State × Obs :=
   | .idle =>
     let s1 := walCloseSegment s
     ({ s1 with snap := s1.hot, hot := [], phase := .begun, snapClosed := walClosedIds s1, lastRec := false }, .ok)
+  | .failed =>
+    -- retry of a failed attempt (Cache.Snapshot, `c.snapshot.Size() > 0`): what was written since
+    -- is folded into the snapshot store being retried (fixes/C02-snapshot-retry-covers-wal.patch;
+    -- before the fix the store was returned as it was while ALL closed segments were removed)
+    let s1 := walCloseSegment s
+    ({ s1 with snap := s1.snap ++ s1.hot, hot := [], phase := .begun, snapClosed := walClosedIds s1,
+               lastRec := false }, .ok)
+
+/-- `WriteSnapshot` with the compactor refusing: Cache.Snapshot happens, then
+    writeSnapshotAndCommit fails and runs `ClearSnapshot(false)`; an empty snapshot returns
+    before (`snapshot.Size() == 0`) -/
+def stepSnapFail (s : State) : State × Obs :=
+  match s.phase with
+  | .idle | .failed =>
+    let s1 := (stepSnapBegin s).1
+    if s1.snap.isEmpty then ({ s1 with phase := .idle, snapClosed := [] }, .ok)
+    else ({ s1 with phase := .failed }, .failed)
+  | _ => (s.touch, .busy)
 
 def stepSnapStep (s : State) : State :=
   match s.phase with
@@ -221,12 +249,18 @@ def stepSnapStep (s : State) : State :=
   | .written =>
     { s with phase := .replaced, files := s.files ++ s.snapTmp.toList, snapTmp := none, lastRec := false }
   | .replaced => { s with phase := .cleared, snap := [], lastRec := false }
+  | .failed => s
   | .cleared =>
     { s with phase := .idle, walClosed := s.walClosed.filter (fun g => !s.snapClosed.contains g.id),
              snapClosed := [], lastRec := false }
 
 def Phase.rank : Phase → Nat
-  | .idle => 0 | .begun => 1 | .written => 2 | .replaced => 3 | .cleared => 4
+  | .idle => 0 | .begun => 1 | .written => 2 | .replaced => 3 | .cleared => 4 | .failed => 0
+
+/-- a WriteSnapshot call is between its sub-steps -/
+def Phase.inFlight : Phase → Bool
+  | .begun | .written | .replaced | .cleared => true
+  | _ => false
 
 /-- how far `snapTo p` runs: `idle` means "to the end" -/
 def Phase.target : Phase → Nat
@@ -234,7 +268,7 @@ def Phase.target : Phase → Nat
   | p => p.rank
 
 def advance1 (tgt : Nat) (s : State) : State :=
-  if s.phase ≠ .idle ∧ s.phase.rank < tgt then stepSnapStep s else s
+  if s.phase.inFlight ∧ s.phase.rank < tgt then stepSnapStep s else s
 
 def stepSnapTo (s : State) (p : Phase) : State :=
   advance1 p.target (advance1 p.target (advance1 p.target (advance1 p.target s)))
@@ -291,6 +325,7 @@ def step (s : State) : Op → State × Obs
     -- committing snapshot holds e.mu.RLock()
     if commitLocked s.phase then (s.touch, .blocked) else (stepDelete s ss lo hi, .ok)
   | .snapBegin => stepSnapBegin s
+  | .snapFail => stepSnapFail s
   | .snapStep => ((stepSnapStep s).touch, .ok)
   | .snapTo p => ((stepSnapTo s p).touch, .ok)
   | .compact i j =>
@@ -305,9 +340,8 @@ def step (s : State) : Op → State × Obs
   | .files => (s.touch, .nfiles s.files.length)
   | .crash tear => (stepCrash s tear, .ok)
   | .compactCrash i j pt n =>
-    if validGroup s.files i j then
-      (openWith s (compactCrashFiles s.files i j pt n) s.wal, .ok)
-    else (s.touch, .badGroup)
+    -- an invalid group compacts nothing: the image is the current state
+    (openWith s (if validGroup s.files i j then compactCrashFiles s.files i j pt n else s.files) s.wal, .ok)
   | .deleteCrash ss lo hi =>
     if commitLocked s.phase then (s.touch, .blocked)
     else (openWith s (s.files.map (addTomb ss lo hi)) s.wal, .ok)
